@@ -47,7 +47,7 @@ def worker(job):
     for w in inputs:
         c = {"input": w, "rx": impl.rx_matrix(gi, w)}
         try:
-            with impl.time_limit(15):
+            with impl.time_limit(6):
                 forest = p.parse(w)
             c["status"] = "forest"
         except parglare.SyntaxError as e:
